@@ -571,14 +571,15 @@ def gen(tier, rng):
         kdb = [[DBKEYS[i], []] for i in range(n)]
         for cl in cite_lists(4 if not thorough else 5):
             yield ('exhaustive', 1, [kdb, cl])
-    k = 0
-    for db in dbs:
+    j = 0                                         # counts (db, citation list) pairs; strides use j + m so that
+    for db in dbs:                                # every min_crossrefs is sampled evenly
         for cl in cls:
+            j += 1
             long = len(cl) > 3                    # thorough only, strided (memory: ~4 kB per case in core.py)
             for m in ((1, 2) if (not thorough or long) else (1, 2, 3)):
                 if m > max(1, len(db)):
                     continue
-                k += 1
+                k = j + m
                 if long:
                     if k % 8 == 0:
                         yield ('exhaustive', 3, [db, cl, m])
@@ -593,7 +594,7 @@ def gen(tier, rng):
                     yield ('exhaustive', 10, [db, cl, m])
                 if '*' not in cl and (thorough or k % 3 == 0):
                     yield ('exhaustive', 2, [db, cl, m])
-            if len(cl) <= 2 or (len(cl) == 3 and (thorough or k % 2 == 0)):
+            if len(cl) <= 2 or (len(cl) == 3 and (thorough or j % 2 == 0)):
                 yield ('exhaustive', 4, [db, [cl]])
                 if thorough or len(cl) <= 2:
                     yield ('exhaustive', 5, [db, [cl]])
@@ -601,13 +602,13 @@ def gen(tier, rng):
         yield ('exhaustive', 5, [db, []])
         yield ('exhaustive', 7, [db, [], 1])
     if thorough:
-        # N = 4, shorter citation lists, every 6th combination
-        k4 = 0
+        # N = 4, shorter citation lists, every 6th (database, list) pair with every min_crossrefs
+        j4 = 0
         for db in small_dbs(4):
             for cl in cite_lists(2, ['X1', 'y2', 'z3', 'W4', 'q9', '*']):
-                for m in (1, 2, 3):
-                    k4 += 1
-                    if k4 % 6 == 0:
+                j4 += 1
+                if j4 % 6 == 0:
+                    for m in (1, 2, 3):
                         yield ('exhaustive4', 3, [db, cl, m])
                         yield ('exhaustive4', 6, [db, cl, m, 0])
     # (b) structured random: larger databases, repeated keys, mixed-case spellings
@@ -667,7 +668,7 @@ def gen(tier, rng):
         for cl in cite_lists(2):
             k += 1
             if k % 5 == 0 or (thorough and k % 2 == 0):
-                m = 1 + k % 2
+                m = 1 + (k // 5) % 2
                 yield ('engines', 9, [db, cl, m, 0])
                 if k % 25 == 0 or (thorough and k % 10 == 0):
                     yield ('engines', 8, [db, cl, m, 0])
